@@ -333,3 +333,6 @@ for _p in ("C03", "C14", "C10"):
     PROPS[_p]["functions"] += [WK + "variable_window_radii"]
 
 PROPS["C10"]["functions"] += ["vectorizers/multi_token_cooccurence_vectorizer.py::numba_build_multi_skip_grams"]
+
+for _p in ("C06", "C10"):
+    PROPS[_p]["functions"] += ["vectorizers/skip_gram_vectorizer.py::build_skip_grams"]
